@@ -50,7 +50,14 @@ def generate(rng, tier, rep):
             if rng.random() < 0.8:
                 L['hooks']['testSetUp'] = ['ok']
                 L['hooks']['testTearDown'] = ['ok']
-        cases.append(symmetric(c))
+        c = symmetric(c)
+        if rng.random() < 0.12 and not any(o.startswith('-j') for o in c['options']):
+            # an earlier run of the same program in this interpreter, after which the program drops and re-creates its layers
+            # (same names, new objects): the second run deals with the new objects only
+            import copy
+            c['warmup_world'] = copy.deepcopy({k: v for k, v in c.items() if k != 'warmup_world'})
+            rep.count('after an earlier run with other layer objects of the same names')
+        cases.append(c)
     for c in cases:
         count_dist(rep, c)
     return cases
